@@ -179,7 +179,17 @@ RevisitRes == LET nm == CHOOSE x \in DOMAIN RevisitPaths : \E h \in {"loop", "as
 RevisitTheorem == fam # "walk" => RevisitRes.r.k = "out"
 NavTheorem == (fam = "walk" /\ v.t = "str" /\ v.s # NilShout) => (Res("emit").k = "out" /\ Res("emit").pieces = <<[k |-> "raw", s |-> <<"[">>], [k |-> "esc", s |-> v.s], [k |-> "raw", s |-> <<"]">>]>>)
 FailTheorem == (fam = "walk" /\ v.t = "fail") => Res("emit").k \in {"err", "unspec"}
-EmitCase == IF fam # "walk"
+\* paths whose tail (an index of the tail) mentions the variable the path starts from: it still means that variable
+SelfRef == << [n |-> "kids_index_mentions_root", leaf |-> "rs[0].Kids[1].Name",
+               e |-> Dot(Idx(Dot(Idx(Id("rs"), IntL(0)), "Kids"), Bin("-", Call("len", <<Id("rs")>>), IntL(1))), "Name")],
+              [n |-> "tags_index_mentions_root", leaf |-> "ks[1].Tags[0]",
+               e |-> Idx(Dot(Idx(Id("ks"), IntL(1)), "Tags"), Bin("-", Call("len", <<Id("ks")>>), IntL(2)))] >>
+EmitSelfRef == ~(fam = "walk" /\ n = 0 /\ e = Id("r")) \/
+               \A i \in 1..Len(SelfRef) :
+                  PrintT("CASE " \o ToJson([gen |-> "GenPaths", srcs |-> [selfref |-> Unparse(<<Text(<<"[">>), Emit(SelfRef[i].e), Text(<<"]">>)>>)],
+                                             expects |-> [selfref |-> [k |-> "out", pieces |-> <<[k |-> "raw", s |-> <<"[">>], [k |-> "esc", s |-> <<SelfRef[i].leaf>>], [k |-> "raw", s |-> <<"]">>]>>, log |-> <<>>]],
+                                             steps |-> 3, reached |-> "selfref:" \o SelfRef[i].n]))
+EmitCase == EmitSelfRef /\ IF fam # "walk"
             THEN PrintT("CASE " \o ToJson([gen |-> "GenPaths", srcs |-> [revisit |-> Unparse(RevisitRes.prog)],
                                              expects |-> [revisit |-> [k |-> "out", pieces |-> RevisitRes.r.pieces, log |-> <<>>]], steps |-> 3, reached |-> fam]))
             ELSE PrintT("CASE " \o ToJson([gen |-> "GenPaths", srcs |-> [u \in Uses |-> Unparse(Prog(u))],
